@@ -145,9 +145,70 @@ def load_check(prop: str):
     return importlib.import_module(f"lwverif.checks.{prop.lower()}")
 
 
+def anchored_files(prop: str) -> list[str]:
+    for line in (ROOT / "properties.jsonl").read_text().splitlines():
+        d = json.loads(line)
+        if d["id"] == prop:
+            return [os.path.join(repo_path(), f) for f in d["anchors"]["files"]]
+    return []
+
+
+def executable_lines(path: str) -> set[int]:
+    try:
+        code = compile(Path(path).read_text(), path, "exec")
+    except Exception:  # noqa: BLE001
+        return set()
+    out, stack = set(), [code]
+    while stack:
+        c = stack.pop()
+        out.update(l for _s, _e, l in c.co_lines() if l is not None and l > 0)
+        stack.extend(k for k in c.co_consts if hasattr(k, "co_lines"))
+    return out
+
+
+class LineCoverage:
+    """sys.monitoring LINE events restricted to the files the property is anchored in; every location is
+    DISABLEd after its first hit, so the cost is one callback per line of code ever reached. The result is
+    evidence of what the workload reached - it never decides a verdict."""
+
+    def __init__(self, files):
+        self.files = set(files)
+        self.hits: dict[str, set] = {f: set() for f in files}
+        self.on = False
+
+    def start(self):
+        mon = getattr(sys, "monitoring", None)
+        if mon is None or not self.files:
+            return
+        try:
+            mon.use_tool_id(mon.COVERAGE_ID, "lwverif")
+        except ValueError:
+            return
+        files, hits, disable = self.files, self.hits, mon.DISABLE
+
+        def on_line(code, line):
+            f = code.co_filename
+            if f in files:
+                hits[f].add(line)
+            return disable
+
+        mon.register_callback(mon.COVERAGE_ID, mon.events.LINE, on_line)
+        mon.set_events(mon.COVERAGE_ID, mon.events.LINE)
+        self.on = True
+
+    def stop(self) -> dict:
+        if self.on:
+            mon = sys.monitoring
+            mon.set_events(mon.COVERAGE_ID, 0)
+            mon.free_tool_id(mon.COVERAGE_ID)
+        return {f: sorted(v) for f, v in self.hits.items()}
+
+
 def worker_main(prop: str, tier: str, seed: int, shard: int, nshards: int, out: str) -> int:
     use_repo()
     mod = load_check(prop)
+    cov = LineCoverage(anchored_files(prop))
+    cov.start()
     budget = float(os.environ.get("LWVERIF_BUDGET", mod.BUDGET[tier]))
     ctx = Ctx(prop, tier, seed, shard, nshards, budget)
     status = "ok"
@@ -158,6 +219,7 @@ def worker_main(prop: str, tier: str, seed: int, shard: int, nshards: int, out: 
         ctx.notes.append("worker error: " + "".join(traceback.format_exception(e))[-4000:])
     d = ctx.dump()
     d["status"] = status
+    d["lines"] = cov.stop()
     Path(out).write_text(json.dumps(d))
     return 0
 
@@ -274,6 +336,16 @@ def main_run(prop: str, tier: str, seed: int, replay: str | None = None) -> int:
         f.unlink()
     work.rmdir()
 
+    line_hits: dict[str, set] = {}
+    for d in results:
+        for f, ls in d.get("lines", {}).items():
+            line_hits.setdefault(f, set()).update(ls)
+    coverage_of_anchors = {}
+    for f, ls in sorted(line_hits.items()):
+        ex = executable_lines(f)
+        coverage_of_anchors[os.path.relpath(f, repo_path())] = {
+            "executable_lines": len(ex), "lines_reached": len(ls & ex) if ex else len(ls),
+            "not_reached": sorted(ex - ls)[:40]}
     counters, buckets, keys = Counter(), Counter(), set()
     samples, violations, evaluations = [], [], 0
     for d in results:
@@ -330,6 +402,7 @@ def main_run(prop: str, tier: str, seed: int, replay: str | None = None) -> int:
             "deciding_monitors": list(getattr(mod, "DECIDING", [])),
             "shards": nshards, "shards_failed": [list(f) for f in failed],
             "known_findings_seen": seen_known,
+            "anchored_code_reached": coverage_of_anchors,
             "repository_tests_under_monitors": None if repotests is None else {
                 "pytest_summary": repotests["pytest_summary"], "wall_s": repotests["wall_s"],
                 "documentation_examples": repotests.get("docs"),
